@@ -201,6 +201,32 @@ def check_history(case, ctx: Ctx):
                     m.freq[i] += v
                     m.err2[i] += v
             kinds.add("hist_arith")
+        elif name == "add_shifted":
+            # adaptive histograms: the other operand lives on the same grid but over a shifted range
+            if not h.is_adaptive() or d != 1:
+                continue
+            from physt.binnings import FixedWidthBinning
+            from physt.histogram1d import Histogram1D as H1
+
+            b0 = h.binnings[0]
+            ob = FixedWidthBinning(bin_width=b0.bin_width, bin_count=2, bin_times_min=b0._times_min + op[2], bin_shift=b0._shift, adaptive=True)
+            o = H1(ob, np.array([1, 2], dtype=op[1]), dtype=np.dtype(op[1]))
+            want_dt = np.promote_types(before_dtype, o.dtype)
+            if op[3]:
+                def f(hh=h):
+                    hh += o
+                    return hh
+                h = ctx.call(what + " +=", f)
+            else:
+                h = ctx.call(what, lambda: h + o)
+            require(h.dtype == want_dt, "not_numpy_promotion", f"{what}: adaptive {before_dtype} + {o.dtype} -> {h.dtype}, numpy promotes to {want_dt}")
+            shape = tuple(np.asarray(h.frequencies).shape)
+            ex = m.exact
+            consistent(h, what)
+            m = Model(h)
+            m.exact = ex
+            kinds.add("hist_arith")
+            ctx.label("adaptive_shifted_add")
         elif name in ("mul", "imul", "div", "idiv"):
             c = scalar_of(op[1])
             fc = Fx(c)
@@ -306,7 +332,9 @@ def scalars(draw):
 @st.composite
 def one_op(draw):
     name = draw(st.sampled_from(["fill", "fill", "fill_n", "fill_n", "add", "iadd", "sub", "isub", "mul", "imul", "div", "idiv", "normalize", "merge",
-                                 "slice", "set_dtype", "set_dtype", "set_dtype"]))
+                                 "slice", "set_dtype", "set_dtype", "set_dtype", "add_shifted", "add_shifted"]))
+    if name == "add_shifted":
+        return [name, draw(st.sampled_from(DTYPES[:6])), draw(st.integers(-4, 6)), draw(st.booleans())]
     ts = st.lists(st.floats(0, 0.999), min_size=2, max_size=2)
     if name == "fill":
         return [name, draw(ts), draw(st.sampled_from([None, None, 1, 2, 0.5, 1.5, 2.0, 0.25]))]
@@ -326,7 +354,7 @@ def one_op(draw):
 @st.composite
 def histories(draw, tier="quick"):
     dtype = draw(st.sampled_from(DTYPES))
-    spec = draw(hgen.hist_spec(dims=(1, 1, 1, 2), dtypes=[dtype if dtype != "float128" else "float64"], max_bins=4, adaptive=False, gapped=False,
+    spec = draw(hgen.hist_spec(dims=(1, 1, 1, 2), dtypes=[dtype if dtype != "float128" else "float64"], max_bins=4, adaptive=draw(st.sampled_from([False, False, True])), gapped=False,
                                with_missed=False, rich_meta=False, forms=("numpy", "static", "fixed")))
     spec["dtype"] = dtype
     # values: sometimes large (outside int16 / float16 range) or fractional, to exercise the conversion rule
